@@ -428,3 +428,134 @@ pub fn glue17(out: &mut Out, thorough: bool) {
     }
     out.notes.insert("front-ends".into(), format!("{runs} command-line book phases ({} distinct rest positions)", rests.len()));
 }
+
+/// C11 through the referee (`chess-cli bot-fight`): games between two loads of the real plugin under wall-clock limits.
+/// What the clock does is not reproducible, but what the referee may say about a game is fixed by the theorems of
+/// `Proofs/Referee.lean` whatever the clock does: White is bot `x`; a checkmate is credited to the side that made the last
+/// move (an odd number of recorded moves: White), "didn't move" is said of the side to move (an even number: White), with
+/// a limit of zero every game ends "didn't move" after no move at all; the program ends normally and its table of results
+/// is the tally of the games it reported.
+pub fn referee11(out: &mut Out, thorough: bool, lib: &str) {
+    let runs: Vec<(&str, u32)> = if thorough { vec![("0ms", 3), ("1ms", 6), ("3ms", 6), ("10ms", 3), ("200us", 6)] } else { vec![("0ms", 2), ("1ms", 2), ("3ms", 1)] };
+    for (tc, games) in runs {
+        let mut verdicts: Vec<(String, String)> = Vec::new();
+        out.case("referee-run", true, format!("expect no-trap #referee tc={tc} games={games}"), || {
+            let child = Command::new(cli_path())
+                .args(["-v", "bot-fight", lib, lib, "-g", &games.to_string(), "-t", tc])
+                .env("RUST_BACKTRACE", "0")
+                .env("RAYON_NUM_THREADS", "4")
+                .stdin(Stdio::null())
+                .stdout(Stdio::piped())
+                .stderr(Stdio::piped())
+                .spawn();
+            let mut child = match child {
+                Ok(c) => c,
+                Err(e) => return format!("harness-error spawn: {e}"),
+            };
+            // the log goes to the standard output, the table of results to the standard error
+            let stderr = child.stderr.take().unwrap();
+            let stdout = child.stdout.take().unwrap();
+            let (tx, rx) = std::sync::mpsc::channel::<String>();
+            let tx2 = tx.clone();
+            let th = std::thread::spawn(move || {
+                for l in BufReader::new(stderr).lines().map_while(Result::ok) {
+                    if tx.send(l).is_err() {
+                        break;
+                    }
+                }
+            });
+            let th2 = std::thread::spawn(move || {
+                for l in BufReader::new(stdout).lines().map_while(Result::ok) {
+                    if tx2.send(l).is_err() {
+                        break;
+                    }
+                }
+            });
+            let start = std::time::Instant::now();
+            let mut code = None;
+            loop {
+                if let Ok(Some(st)) = child.try_wait() {
+                    code = Some(st.code().unwrap_or(-1));
+                    break;
+                }
+                if start.elapsed().as_secs() > 240 {
+                    break;
+                }
+                std::thread::sleep(std::time::Duration::from_millis(5));
+            }
+            if code.is_none() {
+                // games between equal engines may go on for a long time (the referee knows no fifty-move rule): not a failure
+                let _ = child.kill();
+                let _ = child.wait();
+                let _ = th.join();
+                let _ = th2.join();
+                return "no-trap".into();
+            }
+            let _ = th.join();
+            let _ = th2.join();
+            let lines: Vec<String> = rx.try_iter().collect();
+            if code != Some(0) || lines.iter().any(|l| l.contains("panicked")) {
+                return format!("trap exit={code:?} {}", lines.iter().find(|l| l.contains("panicked")).cloned().unwrap_or_default().chars().take(100).collect::<String>());
+            }
+            // per game: "completed game between P (x) and P (y) at TC per move after N moves as a RESULT in .."
+            let (mut wins0, mut wins1, mut ties, mut ngames) = (0u32, 0u32, 0u32, 0u32);
+            for l in lines.iter().filter(|l| l.contains("completed game between")) {
+                let ids: Vec<u32> = l.split('(').skip(1).filter_map(|s| s.split(')').next().and_then(|t| t.parse().ok())).take(2).collect();
+                let n: Option<u32> = l.split(" after ").nth(1).and_then(|s| s.split(' ').next()).and_then(|t| t.parse().ok());
+                let res = l.split(" moves as a ").nth(1).and_then(|s| s.split(" in ").next()).unwrap_or("").to_string();
+                let (Some(&x), Some(&y), Some(n)) = (ids.first(), ids.get(1), n) else {
+                    verdicts.push((format!("unreadable-game-line"), l.chars().take(120).collect()));
+                    continue;
+                };
+                ngames += 1;
+                let field = |name: &str| -> Option<u32> { res.split(name).nth(1).and_then(|s| s.trim_start().split(|c: char| !c.is_ascii_digit()).next()).and_then(|t| t.parse().ok()) };
+                let last_mover = if n % 2 == 1 { x } else { y };
+                let to_move = if n % 2 == 0 { x } else { y };
+                let v = if res.starts_with("CheckMate") {
+                    let w = field("winner:");
+                    if w == Some(0) { wins0 += 1 } else { wins1 += 1 }
+                    if n > 0 && w == Some(last_mover) && field("loser:") == Some(x + y - last_mover) { "consistent" } else { "checkmate-not-credited-to-the-side-that-moved-last" }
+                } else if res.starts_with("DidntMove") {
+                    if field("bot_id:") == Some(to_move) && (tc != "0ms" || n == 0) { "consistent" } else { "didnt-move-not-said-of-the-side-to-move" }
+                } else if res.starts_with("StaleMate") {
+                    ties += 1;
+                    if n > 0 { "consistent" } else { "draw-without-a-move" }
+                } else {
+                    "unknown-result"
+                };
+                if tc == "0ms" && !res.starts_with("DidntMove") {
+                    verdicts.push(("moved-although-the-limit-had-expired".into(), format!("{x}v{y} n={n} {res}")));
+                } else {
+                    verdicts.push((v.into(), format!("{x}v{y} n={n} {res}")));
+                }
+            }
+            // the table: "\t\t<tc>\t<x wins>\t<y wins>\t<ties>" for the pair (0, 1)
+            let table: Option<Vec<u32>> = lines.iter().rev().find(|l| l.starts_with("\t\t")).map(|l| l.trim().split('\t').skip(1).filter_map(|t| t.parse().ok()).collect());
+            let want_games = 2 * games;
+            if ngames != want_games {
+                verdicts.push((format!("reported-{ngames}-of-{want_games}-games"), String::new()));
+            }
+            match table {
+                Some(t) if t == vec![wins0, wins1, ties] => {}
+                other => verdicts.push((format!("table-{other:?}-is-not-the-tally-[{wins0},{wins1},{ties}]").replace(' ', ""), String::new())),
+            }
+            "no-trap".into()
+        });
+        for (i, (v, what)) in verdicts.iter().enumerate() {
+            out.record("referee-verdict", true, format!("expect consistent #referee tc={tc} game={i} {}", what.replace(' ', "_")), v.clone());
+            // a limit of zero is the one clock that is reproducible: every evaluation's limit has expired at its first poll
+            // (expiry index 0), and the model of the referee says what such a game is
+            if tc == "0ms" && what.contains(" n=") {
+                let x: u32 = what.split('v').next().and_then(|t| t.parse().ok()).unwrap_or(9);
+                let n: u32 = what.split(" n=").nth(1).and_then(|t| t.split(' ').next()).and_then(|t| t.parse().ok()).unwrap_or(999);
+                let got = if what.contains("DidntMove") {
+                    let id: u32 = what.split("bot_id: ").nth(1).and_then(|t| t.split(',').next()).and_then(|t| t.parse().ok()).unwrap_or(9);
+                    format!("didntMove:{} moves={n}", if id == x { "white" } else { "black" })
+                } else {
+                    format!("other:{}", what.replace(' ', "_"))
+                };
+                out.record("referee-zero-limit", true, "referee ks=0".into(), got);
+            }
+        }
+    }
+}
